@@ -25,13 +25,16 @@ const (
 	phReject     = "reject"      // new sessions whose first datagram the router rejects
 	phFailInit   = "failInit"    // new sessions whose initialisation fails (endpoint or target name does not resolve)
 	phKeepAlive  = "keepAlive"   // every session keeps sending with gaps of natTimeout/5 for 1.5 x natTimeout: it must keep its relay socket
+	phPackFail   = "packFail"    // after everything is idle: new sessions whose datagrams ALL fail to pack (target name does not resolve / payload exceeds the outbound client's MTU), then silence: they must be evicted too
+	phSteady     = "steady"      // every session sends one datagram every natTimeout/30 for 2.5 x natTimeout: the destination must see one source address only
 	phExpiry     = "expiryProbe" // one datagram per session timed around the instant the idle timeout fires (packet arrives while the session is torn down)
 )
 
 type phase struct {
-	Kind string `json:"kind"`
-	N    int    `json:"n,omitempty"`
-	Pct  int    `json:"pct,omitempty"` // pauseShort: percent of the NAT timeout
+	Kind    string `json:"kind"`
+	N       int    `json:"n,omitempty"`
+	Pct     int    `json:"pct,omitempty"`     // pauseShort: percent of the NAT timeout
+	Variant string `json:"variant,omitempty"` // packFail: "unresolvable" | "toobig"
 }
 
 type plan struct {
@@ -104,6 +107,9 @@ func drawPlan(rt *rapid.T) *plan {
 			ph.Pct = rapid.SampledFrom([]int{5, 20, 50}).Draw(rt, "pausePct")
 		case phBlockInit, phReject, phFailInit:
 			ph.N = rapid.IntRange(1, 4).Draw(rt, "newSessions")
+		case phPackFail:
+			ph.N = rapid.IntRange(1, 3).Draw(rt, "packFailSessions")
+			ph.Variant = rapid.SampledFrom([]string{"unresolvable", "toobig"}).Draw(rt, "packFailVariant")
 		}
 		return ph
 	}
@@ -111,6 +117,9 @@ func drawPlan(rt *rapid.T) *plan {
 		alphabet := []string{phEstablish, phBurst, phFlood, phPauseShort, phPauseEvict, phPauseEvict, phResend, phReject, phFailInit, phExpiry, phExpiry}
 		if p.NATTimeoutMs >= 400 && p.NATTimeoutMs <= 700 {
 			alphabet = append(alphabet, phKeepAlive, phKeepAlive)
+		}
+		if p.NATTimeoutMs >= 400 && p.NATTimeoutMs <= 1000 {
+			alphabet = append(alphabet, phSteady, phSteady, phPackFail, phPackFail)
 		}
 		n := rapid.IntRange(0, 5).Draw(rt, "nPhases")
 		for i := 0; i < n; i++ {
